@@ -29,16 +29,17 @@
          filed under the sender) IS carried through all histories: C41_pending_affordable_histories;
      (0') pending_front_gapless holds after every Reset cycle for every pair of heads
          (C41_Reset_cycle_front_gapless), and no pending list is empty after demoteUnexecutables;
-     (1) the remaining chain-dependent clauses are not carried through histories:
-         pendingNonces consistency, pending_front_gapless and contiguity, "the queue has
-         no executable head" (the list-level mechanisms below are proved; the full gapless statement
-         is FALSE without the no-nonce-regression guard: C41_pending_gapless_refuted; the bump rule
-         is FALSE for a full pool: C41_replacement_requires_bump_refuted);
+     (0'') pending_gapless and pendingNonces consistency ARE carried through all guarded histories
+         (C41_pending_gapless_histories; guard at every Reset: no account's state nonce moves below
+         its non-empty pending list - without it the statement is false, C41_pending_gapless_refuted);
+     (1) "the queue has no executable head" is proved at list level (C41_ready_leaves_no_executable_head)
+         but not as a pool-level invariant; the bump rule is FALSE for a full pool
+         (C41_replacement_requires_bump_refuted);
      (2) fuel of the truncation/Discard loops never running out, priced-heap accounting, the
          per-account/global caps after maintenance.
    [pool_inv_b] is the executable full invariant, evaluated on every dump of the real pool by
    the harness oracle and on the model in C41_nonvacuous below. *)
-From GV Require Import Lib.Tactics Pool.Legacy Pool.LegacyProofs Pool.LegacyInv Pool.LegacyInv2 Pool.LegacyInv3 Pool.LegacyInv4 Pool.LegacyInv5 Pool.LegacyInv6 Pool.LegacyInv7 Pool.LegacyThm.
+From GV Require Import Lib.Tactics Pool.Legacy Pool.LegacyProofs Pool.LegacyInv Pool.LegacyInv2 Pool.LegacyInv3 Pool.LegacyInv4 Pool.LegacyInv5 Pool.LegacyInv6 Pool.LegacyInv7 Pool.LegacyInv8 Pool.LegacyInv9 Pool.LegacyInv10 Pool.LegacyThm.
 Local Open Scope N_scope.
 
 (* replacement_requires_bump: whenever list.Add replaces a transaction, the new one has the
@@ -239,6 +240,44 @@ Theorem C41_Reset_cycle_front_gapless : forall blocks old new st, SInv st -> blo
              exists x, in_opt x (p_pending st' a) /\ t_nonce x = ch_nonce (p_chain st') a).
 Proof. exact C41_Reset_cycle_front_gapless_stmt. Qed.
 Print Assumptions C41_Reset_cycle_front_gapless.
+
+(* pending_gapless and pendingNonces consistency, carried through removeTx, add (incl. eviction and both
+   replacement paths), promoteExecutables, truncatePending, truncateQueue, SetGasTip and the listings:
+   one preservation theorem per operation, for every state satisfying SInv and GInv, where
+   GInv st = for every account, the pending list is gapless from the state nonce and
+             pendingNonces[a] = state nonce + number of pending txs (= last pending nonce + 1) *)
+Theorem C41_removeTx_keeps_gapless : forall k t oob st, SInv st -> GInv st -> GInv (fst (remove_tx (S (S k)) t oob st)).
+Proof. exact remove_tx_G. Qed.
+Print Assumptions C41_removeTx_keeps_gapless.
+Theorem C41_promoteExecutables_keeps_gapless : forall accts st, SInv st -> GInv st -> NoDup accts -> GInv (promote_executables accts st).
+Proof. exact promote_executables_G. Qed.
+Print Assumptions C41_promoteExecutables_keeps_gapless.
+Theorem C41_truncatePending_keeps_gapless : forall st, SInv st -> GInv st -> GInv (truncate_pending st).
+Proof. exact truncate_pending_G. Qed.
+Print Assumptions C41_truncatePending_keeps_gapless.
+Theorem C41_Add_cycle_keeps_gapless : forall txs st, SG st -> (forall t, In t txs -> okt (p_cfg st) t) -> SG (fst (pool_Add txs st)).
+Proof. exact pool_Add_SG. Qed.
+Print Assumptions C41_Add_cycle_keeps_gapless.
+(* the Reset cycle under the guard [reset_guard st new]: no account's state nonce moves below its
+   (non-empty) pending list.  Without the guard the statement is false: C41_pending_gapless_refuted *)
+Theorem C41_Reset_cycle_keeps_gapless : forall blocks old new st, SG st -> reset_guard st new ->
+  blocks_ok (p_cfg st) blocks old new -> NoDup (c_accts (p_cfg st)) -> SG (run_reorg_reset blocks old new st).
+Proof. exact run_reorg_reset_SG. Qed.
+Print Assumptions C41_Reset_cycle_keeps_gapless.
+
+(* pending_gapless and pendingNonces consistency after EVERY guarded history of Add / Reset / SetGasTip /
+   listings from the empty pool.  Guards [hist_okG]: op_okR for every op (senders in the universe,
+   cost < 2^191, nonce < 2^64, also for the txs contained in chain blocks) and reset_guard at every Reset;
+   the account universe has no repetitions.  Conclusion, for every account: the pending list is gapless
+   from the state nonce, pendingNonces[a] = state nonce + number of pending txs, and (non-empty list)
+   pendingNonces[a] = last pending nonce + 1. *)
+Theorem C41_pending_gapless_histories : forall c tip g h, NoDup (c_accts c) -> hist_okG c (pool_init c tip g) h ->
+  let st := run_history (pool_init c tip g) h in
+  forall a, (forall l, p_pending st a = Some l -> contig (ch_nonce (p_chain st) a) (l_txs l)) /\
+            pn_get a st = ch_nonce (p_chain st) a + N.of_nat (pending_len a st) /\
+            (forall l t, p_pending st a = Some l -> last (map Some (l_txs l)) None = Some t -> pn_get a st = t_nonce t + 1).
+Proof. exact C41_pending_gapless_histories_stmt. Qed.
+Print Assumptions C41_pending_gapless_histories.
 
 (* ---------- witnesses ---------- *)
 (* branch 1 mines tA, tB; branch 2 (sibling) does not, and account 0 can no longer pay tB there *)
